@@ -10,7 +10,10 @@ statement is built once and delivered three ways:
 
 The raw driver rows of the three deliveries must be identical; for the select-list
 position the typed result of the literal form must equal the Python value (round trip).
-Positions: select list, WHERE =, IN list, CASE, INSERT VALUES (read back), LIMIT/OFFSET,
+Each parameter is additionally given through a deferred ``callable_=`` (the form the ORM
+lazy loader produces) and delivered the same three ways; all six results must agree.
+Positions: select list, WHERE =, IN list of binds, one expanding IN parameter whose list
+has a None member (``col.in_([v, w, None])``), CASE, INSERT VALUES (read back), LIMIT/OFFSET,
 unary minus, LIKE pattern, string concatenation, IS DISTINCT FROM.
 
 Part B (token level, SQLite + postgresql (standard_conforming_strings on and off) +
@@ -62,7 +65,7 @@ META = {
     "soft_s": {"quick": 50, "thorough": 800},
     "exhaustive": {"quick": False, "thorough": False},
     "require": ["exec_three_way_compared", "rows_returned", "roundtrip_checked", "shape_checked", "literal_tokens_decoded",
-                "lexer_calibrated_on_sqlite", "adversarial_strings"],
+                "lexer_calibrated_on_sqlite", "adversarial_strings", "callable_bind_deliveries", "token_checks_on_callable_form", "inlist_cases"],
     "assumptions": ["transcribed literal grammars of PG/MySQL/MSSQL/Oracle are correct (part B)"],
 }
 
@@ -112,7 +115,7 @@ def num_feature(v):
 
 
 def feature(tname, v, other=None, position=None):
-    if position in ("in", "case", "concat") and isinstance(other, str) and "%(" in other:
+    if position in ("in", "inlist", "inlist_nn", "case", "concat") and isinstance(other, str) and "%(" in other:
         return "percent-paren"  # the neighbouring literal takes part in the rendering too
     if v is None:
         return "null"
@@ -141,6 +144,7 @@ class Rig:
         self.eng = sa.create_engine("sqlite://")
         self.md.create_all(self.eng)
         self.conn = self.eng.connect()
+        self.conn_nocache = self.conn.execution_options(compiled_cache=None)
 
     def col(self, tname, table=None):
         return (table if table is not None else self.v).c["c_" + tname.lower()]
@@ -182,6 +186,24 @@ POSITIONS = {
 }
 
 
+POSITIONS = {k: v + (("inlist", "inlist_nn") if k in ("String", "Unicode", "Text", "Integer", "Date") else ("inlist",)) for k, v in POSITIONS.items()}
+
+
+def mk_value(sa, literal_execute=False):
+    """bind factory: the value is given as ``value=``"""
+    def mk(x, t, expanding=False):
+        return sa.bindparam(None, x, type_=t, expanding=expanding, literal_execute=literal_execute)
+    return mk
+
+
+def mk_callable(sa, literal_execute=False):
+    """bind factory: the value comes from a deferred ``callable_=`` (the form the ORM lazy
+    loader produces); ``bindparam.value`` itself stays None"""
+    def mk(x, t, expanding=False):
+        return sa.bindparam(None, type_=t, callable_=lambda: x, expanding=expanding, literal_execute=literal_execute)
+    return mk
+
+
 def build(rig, tname, value, other, position, mk):
     """mk(value, type) -> bind element; returns a statement (or an (insert, readback) pair)"""
     sa = rig.sa
@@ -194,6 +216,12 @@ def build(rig, tname, value, other, position, mk):
         return sa.select(v.c.id).where(col == b(value)).order_by(v.c.id)
     if position == "in":
         return sa.select(v.c.id).where(col.in_([b(value), b(other)])).order_by(v.c.id)
+    if position == "inlist":
+        # one expanding parameter holding a list with a None member
+        return sa.select(v.c.id).where(col.in_(mk([value, other, None], T, expanding=True))).order_by(v.c.id)
+    if position == "inlist_nn":
+        # the same without the None member
+        return sa.select(v.c.id).where(col.in_(mk([value, other], T, expanding=True))).order_by(v.c.id)
     if position == "case":
         return sa.select(v.c.id, sa.case((col == b(value), b(value)), else_=b(other)).label("x")).order_by(v.c.id).limit(50)
     if position == "limit":
@@ -211,16 +239,19 @@ def build(rig, tname, value, other, position, mk):
     raise ValueError(position)
 
 
-def mech(kind, position, feat):
+def mech(kind, position, feat, callable_form=False):
     """one defect -> one mechanism: the two value classes that break in every position /
-    in every way get one name each; everything else is kind:position:feature."""
+    in every way get one name each; everything else is kind[:position]:feature, plus a
+    marker when only the callable_= form of the parameter is affected."""
+    base = kind.replace("callable-bind-", "")
     if feat == "percent-paren":
         return "pyformat-text-in-literal-rewritten-by-positional-compile"
-    if position == "neg" and feat == "negative" and kind in ("literal-shape-opens-comment", "sqlite-error", "literal-unlexable"):
+    if position == "neg" and feat == "negative" and base in ("literal-shape-opens-comment", "sqlite-error", "literal-unlexable"):
         return "neg-of-negative-literal-opens-comment"
-    if position in ("neg", "limit", "isdistinct", "like") or kind.startswith("sqlite-roundtrip"):
-        return f"{kind}:{position}:{feat}"
-    return f"{kind}:{feat}"
+    cb = ":callable-bind" if callable_form else ""
+    if position in ("neg", "limit", "isdistinct", "like", "inlist", "inlist_nn") or kind.startswith("sqlite-roundtrip"):
+        return f"{kind}{cb}:{position}:{feat}"
+    return f"{kind}{cb}:{feat}"
 
 
 def norm(v, numeric=False):
@@ -288,11 +319,13 @@ def run(ctx):
                         continue
                     if not ctx.budget_ok():
                         return
-                    if value is None and position in ("limit", "neg", "like", "concat"):
+                    if value is None and position in ("limit", "neg", "like", "concat", "inlist_nn"):
                         continue
                     feat = feature(tname, value, other, position)
                     desc = {"type": tname, "value": value, "position": position}
                     ctx.case(desc, nontrivial=feat not in ("plain", "non-negative", "bool"))
+                    if position.startswith("inlist"):
+                        ctx.count("inlist_cases")
                     exec_part(ctx, sa, T, rig, tname, value, other, position, feat, desc)
                     token_part(ctx, sa, T, rig, dialects, tname, value, other, position, feat, desc)
                     if idx % 211 == 0:
@@ -306,10 +339,10 @@ def run(ctx):
 # ---------------------------------------------------------------------------
 def exec_part(ctx, sa, T, rig, tname, value, other, position, feat, desc):
     conn = rig.conn
-    mk_bound = lambda x, t: sa.bindparam(None, x, type_=t)  # noqa: E731
-    mk_le = lambda x, t: sa.bindparam(None, x, type_=t, literal_execute=True)  # noqa: E731
-    st_b = build(rig, tname, value, other, position, mk_bound)
-    st_le = build(rig, tname, value, other, position, mk_le)
+    st_b = build(rig, tname, value, other, position, mk_value(sa))
+    st_le = build(rig, tname, value, other, position, mk_value(sa, literal_execute=True))
+    st_cb = build(rig, tname, value, other, position, mk_callable(sa))
+    st_cle = build(rig, tname, value, other, position, mk_callable(sa, literal_execute=True))
 
     numeric = tname in ("Numeric", "Float")
 
@@ -318,18 +351,23 @@ def exec_part(ctx, sa, T, rig, tname, value, other, position, feat, desc):
         conn.execute(rig.v2.delete())
         return r
 
+    deliveries = [
+        ("bound", st_b, "exec"), ("literal_binds", st_b, "text"), ("literal_execute", st_le, "exec"),
+        ("callable:bound", st_cb, "exec"), ("callable:literal_binds", st_cb, "text"), ("callable:literal_execute", st_cle, "exec"),
+    ]
     results = {}
     sqls = {}
-    for how in ("bound", "literal_binds", "literal_execute"):
+    for how, st, style in deliveries:
         try:
-            if how == "bound":
-                res = conn.execute(st_b)
-                sqls[how] = res.context.statement
-            elif how == "literal_execute":
-                res = conn.execute(st_le)
+            if style == "exec":
+                # the callable_= statements run with the compiled cache off: a cache entry made
+                # by the value= form of the same statement would bind None for them
+                # (construct_params tests the *cached* bindparam's .callable) - that is a
+                # cache-transparency matter (C02), not literal rendering
+                res = (rig.conn_nocache if how.startswith("callable:") else conn).execute(st)
                 sqls[how] = res.context.statement
             else:
-                comp = st_b.compile(rig.eng, compile_kwargs={"literal_binds": True})
+                comp = st.compile(rig.eng, compile_kwargs={"literal_binds": True})
                 sqls[how] = str(comp)
                 if comp.params:
                     ctx.violation(f"literal-not-inlined:{position}",
@@ -339,22 +377,27 @@ def exec_part(ctx, sa, T, rig, tname, value, other, position, feat, desc):
                 res = conn.exec_driver_sql(str(comp))
             results[how] = ("ok", readback() if position == "values" else raw_rows(res, numeric))
         except sa.exc.CompileError as e:
-            if "literal" in str(e).lower() and "render" in str(e).lower() and how != "bound":
+            if "literal" in str(e).lower() and "render" in str(e).lower() and how == "literal_binds" and tname not in PLAIN_TYPES:
                 ctx.count("no_literal_processor")
                 return
-            results[how] = ("err", "CompileError")
+            results[how] = ("err", "CompileError:" + str(e)[:80])
         except sa.exc.DBAPIError as e:
             results[how] = ("err", type(e.orig).__name__ + ":" + str(e.orig)[:100])
             if position == "values":
                 conn.execute(rig.v2.delete())
+        except sa.exc.StatementError as e:  # e.g. a CompileError raised while expanding at execution time
+            results[how] = ("err", type(e.orig).__name__ + ":" + str(e.orig)[:100])
     ctx.count("exec_three_way_compared")
     base = results["bound"]
     if base[0] == "ok":
         ctx.count("rows_returned", len(base[1]))
-    for how in ("literal_binds", "literal_execute"):
+    ctx.count("callable_bind_deliveries", 3)
+    for how in ("literal_binds", "literal_execute", "callable:bound", "callable:literal_binds", "callable:literal_execute"):
         got = results[how]
         if not same(got, base):
             kind = "error" if "err" in (got[0], base[0]) else "rows-differ"
+            if how.startswith("callable:") and same(results[how.split(":", 1)[1]], base):
+                kind = "callable-bind-" + kind  # only the callable_= form of the parameter breaks
             ctx.violation(
                 mech(f"sqlite-{kind}", position, feat),
                 f"{tname} {value!r} at {position}: bound -> {str(base)[:120]} but {how} -> {str(got)[:120]} :: {sqls.get(how, '')[:200]}",
@@ -411,6 +454,7 @@ def make_dialects(sa):
 VALUEISH = {"number", "string", "param", "ident", "qident"}
 
 
+PLAIN_TYPES = ("String", "Unicode", "Text", "Integer", "BigInteger", "Float", "Numeric", "Date", "DateTime", "Time", "Boolean")
 DATE_CALLS = {"to_date", "to_timestamp"}
 
 
@@ -464,17 +508,32 @@ def norm_tokens(toks):
 
 
 def token_part(ctx, sa, T, rig, dialects, tname, value, other, position, feat, desc):
-    mk_bound = lambda x, t: sa.bindparam(None, x, type_=t)  # noqa: E731
-    st = build(rig, tname, value, other, position, mk_bound)
-    for label, lexname, dialect, backslash in dialects:
+    st = build(rig, tname, value, other, position, mk_value(sa))
+    st_c = build(rig, tname, value, other, position, mk_callable(sa))
+    salt = sum(map(ord, position)) + (0 if value is None else len(repr(value)))
+    for di, (label, lexname, dialect, backslash) in enumerate(dialects):
         ps = dialect.paramstyle
+        # the literal text comes from the value= form or from the callable_= form of the
+        # same statement, alternating so that every dialect sees both
+        use_callable = (salt + di) % 2 == 1
         try:
             bound_sql = str(st.compile(dialect=dialect, compile_kwargs={"render_postcompile": True}))
-            comp = st.compile(dialect=dialect, compile_kwargs={"literal_binds": True})
-            lit_sql = str(comp)
         except sa.exc.CompileError:
             ctx.count("no_literal_processor_or_unsupported")
             continue
+        try:
+            comp = (st_c if use_callable else st).compile(dialect=dialect, compile_kwargs={"literal_binds": True})
+            lit_sql = str(comp)
+        except sa.exc.CompileError as e:
+            if tname in PLAIN_TYPES:
+                ctx.violation(mech("literal-compile-error", position, feat, use_callable),
+                              f"{label}: literal_binds compile of {tname} {value!r} at {position} raised: {str(e)[:200]}",
+                              dict(desc, dialect=label, error=str(e)[:400]))
+            else:
+                ctx.count("no_literal_processor_or_unsupported")
+            continue
+        if use_callable:
+            ctx.count("token_checks_on_callable_form")
         left = [k for k in comp.params if not k.startswith("ret_")]  # oracle RETURNING .. INTO out-binds are not literals
         if left and position != "limit":
             ctx.violation(f"literal-not-inlined:{position}",
@@ -485,14 +544,14 @@ def token_part(ctx, sa, T, rig, dialects, tname, value, other, position, feat, d
         try:
             ltoks = T.lex(lit_sql, lexname, ps, backslash_escapes=backslash)
         except T.LexError as e:
-            ctx.violation(mech("literal-unlexable", position, feat), f"{label}: {e} :: {lit_sql[:300]}", dict(desc, dialect=label, sql=lit_sql))
+            ctx.violation(mech("literal-unlexable", position, feat, use_callable), f"{label}: {e} :: {lit_sql[:300]}", dict(desc, dialect=label, sql=lit_sql))
             continue
         btoks = T.lex(bound_sql, lexname, ps, backslash_escapes=backslash)
         ln, bn = norm_tokens(ltoks), norm_tokens(btoks)
         if [s for s, _ in ln] != [s for s, _ in bn]:
             what = "opens-comment" if any(t.kind == "comment" for t in ltoks) else "token-sequence"
             ctx.violation(
-                mech(f"literal-shape-{what}", position, feat),
+                mech(f"literal-shape-{what}", position, feat, use_callable),
                 f"{label}: literal rendering of {tname} {value!r} changes the statement shape: {lit_sql[:200]!r} vs {bound_sql[:200]!r}",
                 dict(desc, dialect=label, literal_sql=lit_sql, bound_sql=bound_sql,
                      literal_shape=[s for s, _ in ln], bound_shape=[s for s, _ in bn]),
@@ -502,11 +561,11 @@ def token_part(ctx, sa, T, rig, dialects, tname, value, other, position, feat, d
         if value is None or position in ("limit", "like") and False:
             continue
         lits = [lt for (s, lt), (s2, bt) in zip(ln, bn) if s == "?" and bt is not None and bt[0] == "param"]
-        expect_n = {"select": 1, "where": 1, "in": 2, "case": 3, "values": 1, "neg": 1, "like": 1, "concat": 3, "isdistinct": 1}.get(position)
+        expect_n = {"select": 1, "where": 1, "in": 2, "inlist": 3, "inlist_nn": 2, "case": 3, "values": 1, "neg": 1, "like": 1, "concat": 3, "isdistinct": 1}.get(position)
         if position in ("limit", "neg"):
             continue
         if expect_n is not None and len(lits) < expect_n:
-            ctx.violation(mech("literal-token-missing", position, feat), f"{label}: {len(lits)} literal tokens for {expect_n} binds :: {lit_sql[:200]}",
+            ctx.violation(mech("literal-token-missing", position, feat, use_callable), f"{label}: {len(lits)} literal tokens for {expect_n} binds :: {lit_sql[:200]}",
                           dict(desc, dialect=label, sql=lit_sql))
             continue
         first = lits[0]
@@ -524,7 +583,7 @@ def token_part(ctx, sa, T, rig, dialects, tname, value, other, position, feat, d
             ok = first[0] == "number" and _dec(first[1]) == value
         if not ok:
             ctx.violation(
-                mech("literal-decodes-differently", tname, feat),
+                mech("literal-decodes-differently", tname if not position.startswith("inlist") else position, feat, use_callable),
                 f"{label}: literal for {value!r} lexes as {first!r} :: {lit_sql[:200]}",
                 dict(desc, dialect=label, sql=lit_sql, token=first),
             )
